@@ -200,7 +200,7 @@ func runC04(a args) error {
 		}
 	}
 	// the cookie CSRF rule: Origin x Referer x configured origins, cookie alone on a POST
-	origins := []string{"", allowedOrigin, otherOrigin, "null"} // "null": a present Origin that names nobody
+	origins := []string{"", allowedOrigin, otherOrigin, "null"}                                                                                              // "null": a present Origin that names nobody
 	referers := []string{"", allowedOrigin + "/page?x=1", otherOrigin + "/page", "http://[::1", allowedOrigin + ":8443/page", "http://allowed.example/page"} // the allowed host on another port / scheme is another origin
 	originCfgs := [][]string{nil, {allowedOrigin, "https://second.example"}, {"*"}, {"null", allowedOrigin}}
 	for _, c := range []carrierState{cValid, cInvalid} {
